@@ -30,7 +30,7 @@ EXTERNAL_RAISES = {
     "inspect.getsourcefile": ["TypeError"],
     "inspect.getfullargspec": ["TypeError"],
     "importlib.import_module": ["ModuleNotFoundError"],
-    "codefind.find_code": ["KeyError", "ModuleNotFoundError"],
+    "codefind.find_code": ["KeyError", "ModuleNotFoundError", "TypeError"],      # TypeError: importlib refuses a relative module name ("/.x/f") without a package
     "ast.parse": ["SyntaxError"],
     "tokenize.tokenize": ["SyntaxError"],
 }
